@@ -1,2 +1,39 @@
-def run(ctx):
-    return ""
+"""C15 proof part: the xarray plumbing helpers of flox/xarray.py under contract (contracts/xrhelpers.py)."""
+
+from __future__ import annotations
+
+
+def run(ctx, pid="C15", tier="quick"):
+    import vlib.pyvc.prims as P
+
+    from ..contracts import xrhelpers as K
+    from ..pyvc.run import add_to_ctx
+    from . import finalize_proofs
+
+    finalize_proofs._patch()
+    orig = P.Prims.register_defaults
+
+    def reg(self):
+        orig(self)
+        K.register_models(self)
+
+    counts = {}
+    P.Prims.register_defaults = reg
+    try:
+        for c in K.all_broadcast():
+            ex, obs = add_to_ctx(ctx, c, {})
+            counts["b"] = counts.get("b", 0) + len(obs)
+        for c, callees in K.all_wrapper():
+            ex, obs = add_to_ctx(ctx, c, callees)
+            counts["w"] = counts.get("w", 0) + len(obs)
+        for c in K.all_restore():
+            ex, obs = add_to_ctx(ctx, c, {})
+            counts["r"] = counts.get("r", 0) + len(obs)
+    finally:
+        P.Prims.register_defaults = orig
+    return (f"xarray plumbing helpers under contract: _broadcast_size_one_dims (core dimensions of rank 1-3 x every ordered subset as the grouper's dimensions, sizes symbolic; {counts.get('b', 0)} obligations: "
+            "every grouper gets the rank of the core dimensions, the dimensions it has sit where the core dimensions are with their sizes, the ones it lacks are size-1 axes in place, the data is untouched), "
+            f"xarray_reduce.wrapper (reduction names x skipna None/True/False x dtype kinds; {counts.get('w', 0)} obligations: the documented skipna table decides the reduction name, ValueError exactly for skipna with all/any/count, "
+            "one groupby_reduce on the broadcast array and groupers with the caller's keyword arguments, a vector quantile axis is moved last), "
+            f"_restore_dim_order (inputs of rank 1-3 x the grouped dimension x orders of the delivered dims x new dims x no_groupby_reorder; {counts.get('r', 0)} obligations: input dimensions in input order, "
+            "group dimension in place of the grouped one, new dimensions last).")
